@@ -1808,7 +1808,7 @@ func cancelInPlainCallback(sc *Scn, r *rand.Rand) {
 }
 
 func genC10base(prop, tier string, r *rand.Rand) *Scn {
-	if r.IntN(60) == 0 {
+	if r.IntN(100) == 0 {
 		// "at any nesting depth": a chain of flows nested a hundred and more deep
 		// around two leaves (the inner one's action routes the innermost flow)
 		g := newGen(prop, tier, r)
